@@ -47,6 +47,10 @@ OBJ = [
     # the very same text as object 2 (incl. the rejected statement) but with the opposite silent setting, and as object 0 but verbatim names
     ("CREATE TABLE t3 (d int);\nCREATE TABLE ( ( ;", dict(silent=True)),
     ('CREATE TABLE "t1" ("a" int, "b" varchar(3));\nCREATE SEQUENCE q START 1;', dict(normalize_names=False)),
+    # a column-less table (LIKE) that an ALTER then extends: the output layer appends to lists the grammar action created
+    ("CREATE TABLE x9 (LIKE y9);\nALTER TABLE x9 ADD c int;\nCREATE TABLE z9 (w int);", dict()),
+    # a second "input.regex" user with a different regex
+    ("CREATE EXTERNAL TABLE r6 (x string) ROW FORMAT SERDE 'a.b.RegexSerDe' WITH SERDEPROPERTIES (\"input.regex\" = \"([0-9]+) (x|y)\") STORED AS TEXTFILE;", dict()),
 ]
 RUNARGS = [dict(), dict(output_mode="hql", group_by_type=True)]
 
@@ -57,6 +61,8 @@ THREADS = {
     "2thr_rel": [(1, 0), (4, 0)],
     "2thr_regex": [(5, 0), (1, 1)],
     "2thr_sametext": [(6, 0), (2, 0)],
+    "2thr_like": [(8, 0), (1, 0)],
+    "2thr_2regex": [(5, 0), (9, 0)],
     "2thr_samenames": [(7, 0), (0, 0)],
     "3thr": [(0, 0), (1, 1), (3, 0)],
     "2thr_fine": [(0, 0), (1, 0)],
@@ -98,7 +104,7 @@ def histories(k, runs, objs):
 
 def gen_cases(tier):
     cases = []
-    for objs in ([0, 1], [0, 2], [1, 3], [1, 4], [4, 1], [5, 1], [0, 5], [6, 2], [2, 6], [0, 7], [7, 0]):
+    for objs in ([0, 1], [0, 2], [1, 3], [1, 4], [4, 1], [5, 1], [0, 5], [6, 2], [2, 6], [0, 7], [7, 0], [8, 1], [1, 8], [8, 0], [5, 9], [9, 5]):
         for h in histories(2, 2, objs):
             cases.append({"kind": "ops", "hist": h})
     for objs in ([0, 1, 2], [1, 4, 5]):
@@ -417,8 +423,16 @@ def _sched_case(case):
             # replay the same schedule: observations must be identical before anything is trusted
             s2, res2 = _run_schedule(cfg, _choices_of(s), active)
             replayed += 1
-            if res2 != res or s2.trace != s.trace:
+            if s2.trace != s.trace:
                 raise HarnessError("schedule replay not deterministic: %r vs %r" % (s.trace, s2.trace))
+            if res2 != res:
+                # identical schedule, different objects, same process, different results: state left behind by earlier parser objects
+                # decides what later ones return - that is cross-object interference, not scheduling
+                t = [x for x in range(len(cfg)) if res[x] != res2[x]][0]
+                if len(diffs) < 3:
+                    diffs.append(vdiff("thread %d (object %d): the same schedule %s executed twice in one process" % (t, cfg[t][0], "".join(map(str, s.trace))),
+                                       "result-depends-on-earlier-parser-objects", res[t], res2[t]))
+                break
         if bad and len(diffs) < 3:
             t = bad[0]
             diffs.append(vdiff("thread %d (object %d) under schedule %s [points %s]" % (
